@@ -197,6 +197,33 @@ theorem spacesThenDashes_some (s : Bytes) (n : Nat) (h : spacesThenDashes s = so
     rfl
   · simp at h
 
+/-- a match of `<spaces>(--|//)`: the space run, the marker (one of the two), the rest -/
+theorem spacesThenComment_split (s : Bytes) (n : Nat) (m : Bytes) (h : spacesThenComment s = some (n, m)) :
+    ∃ sp, (∀ b ∈ sp, b = 32) ∧ sp.length = n ∧ (m = [45, 45] ∨ m = [47, 47]) ∧ s.drop n = m ++ s.drop (n + 2) ∧
+      s = sp ++ s.drop n := by
+  unfold spacesThenComment at h
+  simp only at h
+  obtain ⟨sp, h1, h2, h3⟩ := lead_split (· == 32) s
+  have key : ∀ mk : Bytes, mk.length = 2 → mk.isPrefixOf (s.drop (spanLen (· == 32) s)) = true →
+      s.drop (spanLen (· == 32) s) = mk ++ s.drop (spanLen (· == 32) s + 2) := by
+    intro mk hl hp
+    rw [List.isPrefixOf_iff_prefix] at hp
+    obtain ⟨t, ht⟩ := hp
+    have : s.drop (spanLen (· == 32) s + 2) = t := by
+      rw [← List.drop_drop, ← ht, ← hl]; simp
+    rw [this, ht]
+  split at h
+  · rename_i hp
+    injection h with h; injection h with hn hm
+    subst hn hm
+    exact ⟨sp, fun b hb => by simpa using h1 b hb, h2, Or.inl rfl, key _ rfl hp, h3⟩
+  · split at h
+    · rename_i hp
+      injection h with h; injection h with hn hm
+      subst hn hm
+      exact ⟨sp, fun b hb => by simpa using h1 b hb, h2, Or.inr rfl, key _ rfl hp, h3⟩
+    · simp at h
+
 /-! ### every stage of `normRun` changes white space only -/
 
 /-- not a white-space byte -/
@@ -291,16 +318,29 @@ theorem strip_subStartComment (repl s : Bytes) (hr : strip repl = [45, 45]) :
     rfl
   · rfl
 
+theorem strip_marker (m : Bytes) (hm : m = [45, 45] ∨ m = [47, 47]) : strip m = m := by
+  rcases hm with rfl | rfl <;> rfl
+
+theorem strip_subStartAnyComment (s : Bytes) : strip (subStartAnyComment s) = strip s := by
+  unfold subStartAnyComment
+  split
+  · rename_i n m hn
+    obtain ⟨sp, h1, _, _, _, h3⟩ := spacesThenComment_split s n m hn
+    conv => rhs; rw [h3]
+    rw [strip_append, strip_spaces sp h1]
+    rfl
+  · rfl
+
 theorem strip_subLineComment (ind s : Bytes) (hi : strip ind = []) : strip (subLineComment ind s) = strip s := by
   fun_induction subLineComment ind s with
   | case1 => rfl
-  | case2 rest n hn ih =>
-    obtain ⟨sp, h1, _, h3⟩ := spacesThenDashes_some rest n hn
-    have hr : strip rest = 45 :: 45 :: strip (rest.drop (n + 2)) := by
-      conv => lhs; rw [h3]
-      rw [strip_append, strip_spaces sp h1, strip_cons_nws 45 _ rfl, strip_cons_nws 45 _ rfl]
+  | case2 rest n m hn ih =>
+    obtain ⟨sp, h1, _, hm, h2, h3⟩ := spacesThenComment_split rest n m hn
+    have hr : strip rest = m ++ strip (rest.drop (n + 2)) := by
+      conv => lhs; rw [h3, h2]
+      rw [strip_append, strip_spaces sp h1, strip_append, strip_marker m hm]
       rfl
-    rw [strip_cons_ws 10 _ rfl, hr, strip_append, strip_append, strip_append, hi, ih]
+    rw [strip_cons_ws 10 _ rfl, hr, strip_append, strip_append, strip_append, hi, ih, strip_marker m hm]
     rfl
   | case3 rest _ ih => exact strip_cons_congr _ _ _ ih
   | case4 b rest _ ih => exact strip_cons_congr _ _ _ ih
@@ -363,11 +403,11 @@ theorem strip_normRun (w d : Nat) (s e : Bool) (r : Bytes) : strip (normRun w d 
   generalize (if (!s) = true then subStartComment [32, 32, 45, 45] s2 else s2) = s3 at e3
   have e4 := strip_subLineComment ind s3 hi
   generalize subLineComment ind s3 = s4 at e4
-  have e5 : strip (if s = true then subStartComment [45, 45] s4 else s4) = strip s4 := by
+  have e5 : strip (if s = true then subStartAnyComment s4 else s4) = strip s4 := by
     split
-    · exact strip_subStartComment _ _ rfl
+    · exact strip_subStartAnyComment _
     · rfl
-  generalize (if s = true then subStartComment [45, 45] s4 else s4) = s5 at e5
+  generalize (if s = true then subStartAnyComment s4 else s4) = s5 at e5
   have e6 := strip_subFinalIndent ind s5 hi
   generalize subFinalIndent ind s5 = s6 at e6
   have e7 : strip (if s = true then subAllSpaces s6 else s6) = strip s6 := by
@@ -477,10 +517,20 @@ theorem lf_subStartComment (repl s : Bytes) (hr : (10 : UInt8) ∉ repl) :
     simp [hr, this]
   · rfl
 
+theorem lf_subStartAnyComment (s : Bytes) : (10 : UInt8) ∈ subStartAnyComment s ↔ (10 : UInt8) ∈ s := by
+  unfold subStartAnyComment
+  split
+  · rename_i n m hn
+    obtain ⟨sp, h1, _, _, _, h3⟩ := spacesThenComment_split s n m hn
+    have := lf_not_mem_spaces sp h1
+    conv => rhs; rw [h3]
+    simp [this]
+  · rfl
+
 theorem lf_subLineComment (ind s : Bytes) : (10 : UInt8) ∈ subLineComment ind s ↔ (10 : UInt8) ∈ s := by
   fun_induction subLineComment ind s with
   | case1 => rfl
-  | case2 rest n hn ih => simp
+  | case2 rest n m hn ih => simp
   | case3 rest _ ih => exact lf_cons_congr _ _ _ ih
   | case4 b rest _ ih => exact lf_cons_congr _ _ _ ih
 
@@ -538,11 +588,11 @@ theorem lf_normRun (w d : Nat) (s e : Bool) (r : Bytes) :
   generalize (if (!s) = true then subStartComment [32, 32, 45, 45] s2 else s2) = s3 at e3
   have e4 := lf_subLineComment ind s3
   generalize subLineComment ind s3 = s4 at e4
-  have e5 : (10 : UInt8) ∈ (if s = true then subStartComment [45, 45] s4 else s4) ↔ (10 : UInt8) ∈ s4 := by
+  have e5 : (10 : UInt8) ∈ (if s = true then subStartAnyComment s4 else s4) ↔ (10 : UInt8) ∈ s4 := by
     split
-    · exact lf_subStartComment _ _ (by decide)
+    · exact lf_subStartAnyComment _
     · rfl
-  generalize (if s = true then subStartComment [45, 45] s4 else s4) = s5 at e5
+  generalize (if s = true then subStartAnyComment s4 else s4) = s5 at e5
   have e6 := lf_subFinalIndent ind s5
   generalize subFinalIndent ind s5 = s6 at e6
   have e7 : (10 : UInt8) ∈ (if s = true then subAllSpaces s6 else s6) ↔ (10 : UInt8) ∈ s6 := by
